@@ -44,6 +44,7 @@ var h1specs = []h1spec{
 	{Name: "reuse-upload-bodiless", Reuse: true, Upload: true, Bodiless: true},
 	{Name: "reuse-peerclose-retry", Reuse: true, PeerClose: true},
 	{Name: "fresh-get-hdrtimeout", HdrTimeout: true},
+	{Name: "queued-maxconns-get", Queued: true},
 }
 
 var h2specs = []h2spec{
@@ -52,6 +53,9 @@ var h2specs = []h2spec{
 	{Name: "fresh-upload", Upload: true},
 	{Name: "reuse-get", Reuse: true},
 	{Name: "reuse-upload-bodiless", Reuse: true, Upload: true, Bodiless: true},
+	{Name: "slot-wait-get", Reuse: true, SlotWait: true},
+	{Name: "expect-continue-upload", Upload: true, Expect: true},
+	{Name: "early-response-upload", Upload: true, EarlyRsp: true},
 }
 
 var h3specs = []h3spec{
@@ -120,6 +124,9 @@ func runJob(j job, seed uint64, quick bool) (out []result) {
 		add(runH1(sp, "none", n, false, quick))
 		for pos := 0; pos <= n; pos++ {
 			for _, k := range kindsAt(pos, seed, quick) {
+				if sp.Queued && k == "client-timeout" {
+					continue // Client.Timeout is client-wide: it would also end the request that holds the connection
+				}
 				add(runH1(sp, k, pos, false, quick))
 			}
 			// ResponseHeaderTimeout runs only between "request written" and "head complete"
